@@ -1,15 +1,16 @@
 """Shared by the text-level checks (C03, C18, C04): trivia-placement cases from MC_Trivia, the `dlv text`
 driver, and the TLC judge TextTrace (reference lexer LuaLex)."""
-import os, json
+import os, json, re
 import vlib
 from vlib import tlc, tlc_ok, dlv, write_ndjson, read_ndjson
 
 
-def trivia_cases(modes, workers=8):
-    """Runs MC_Trivia once per mode; returns (cases, states, generated)."""
+def trivia_cases(modes, workers=8, stride=1, offset=0):
+    """Runs MC_Trivia once per mode; returns (cases, states, generated). stride > 1: TLC renders only the placements whose index
+    is `offset` modulo `stride` (sampling done by the specification's Init predicate)."""
     cases, st, gen = [], 0, 0
     for m in modes:
-        r = tlc("mc/MC_Trivia", workers=workers, timeout=1800, env={"MODE": m}, xmx="8g")
+        r = tlc("mc/MC_Trivia", workers=workers, timeout=1800, env={"MODE": m, "STRIDE": str(stride), "OFFSET": str(offset)}, xmx="8g")
         tlc_ok(r, "MC_Trivia(%s)" % m)
         cs = r.tagged("CASE")
         if not cs:
@@ -39,11 +40,19 @@ def run_and_judge(wd, label, cases, workers=12, timeout=3000):
         c.setdefault("location", "")
         c.setdefault("rules", "[]")
         c.setdefault("shift", 0)
+        c.setdefault("tspans", [])
     cp = os.path.join(wd, "cases-%s.ndjson" % label)
     write_ndjson(cp, cases)
     op = os.path.join(wd, "obs-%s.ndjson" % label)
     dlv(["text", "--cases", cp, "--out", op])
     obs_rows = read_ndjson(op)
+    obs = {o["id"]: o for o in obs_rows}
+    verdicts, res = judge_obs(op, label, obs_rows, workers, timeout)
+    return obs, verdicts, res
+
+
+def judge_obs(op, label, obs_rows, workers=12, timeout=3000):
+    """TextTrace over recorded observations (chunked). Returns (verdicts by id, tlc result)."""
     obs = {o["id"]: o for o in obs_rows}
     verdicts = {}
     res = None
@@ -63,7 +72,153 @@ def run_and_judge(wd, label, cases, workers=12, timeout=3000):
             res.generated += r.generated
     if set(verdicts) != set(obs):
         raise vlib.ToolError("TextTrace judged %d of %d observations (%s)" % (len(verdicts), len(obs), label))
-    return obs, verdicts, res
+    return verdicts, res
+
+
+# ---- finding F-C03-f: the token-based generator writes the `...` of a type pack (`...T`, `T...`) without the trivia that the
+# parser attached to that token: its LEADING trivia (what precedes it on its own line(s), after the line of the previous token)
+# and its TRAILING trivia (what follows it up to and including the end of its line).  retain_lines then pads line breaks in
+# front of the next token so that it keeps its line.  A failing typed case is judged AGAIN by TextTrace with exactly that
+# trivia removed from the SOURCE side: if the verdict then holds, the failure is the recorded finding and nothing else.
+def _items(s):
+    """[(kind, start, end)] over s; kinds: ws (blanks), nl (one line break), lc (line comment without its line break),
+    bc (long comment), code (one code token or one character of it)."""
+    out, p, n = [], 0, len(s)
+    while p < n:
+        c = s[p]
+        if c in " \t":
+            q = p
+            while q < n and s[q] in " \t":
+                q += 1
+            out.append(("ws", p, q))
+        elif c == "\r" and s[p:p + 2] == "\r\n":
+            q = p + 2
+            out.append(("nl", p, q))
+        elif c in "\r\n":
+            q = p + 1
+            out.append(("nl", p, q))
+        elif s.startswith("--", p):
+            q = p + 2
+            m = re.match(r"\[(=*)\[", s[q:])
+            if m:
+                close = "]" + m.group(1) + "]"
+                e = s.find(close, q + len(m.group(0)))
+                q = n if e < 0 else e + len(close)
+                out.append(("bc", p, q))
+            else:
+                while q < n and s[q] not in "\r\n":
+                    q += 1
+                out.append(("lc", p, q))
+        elif c in "\"'":
+            q = p + 1
+            while q < n and s[q] != c:
+                q += 2 if s[q] == "\\" else 1
+            q = min(n, q + 1)
+            out.append(("code", p, q))
+        elif s.startswith("...", p):
+            q = p + 3
+            out.append(("code", p, q))
+        elif c.isalnum() or c == "_":
+            q = p
+            while q < n and (s[q].isalnum() or s[q] == "_"):
+                q += 1
+            out.append(("code", p, q))
+        else:
+            m = re.match(r"\[(=*)\[", s[p:])
+            if m:
+                close = "]" + m.group(1) + "]"
+                e = s.find(close, p + len(m.group(0)))
+                q = n if e < 0 else e + len(close)
+            else:
+                q = p + 1
+            out.append(("code", p, q))
+        p = q
+    return out
+
+
+def without_ellipsis_trivia(src, tspans):
+    """(src2, tspans2, changed).  Type packs: a `...` inside a type region (`...T`, `T...`), and `Name...` of a generic
+    parameter list (outside the regions a `...` preceded by a name can only be that: a vararg expression never follows a name)."""
+    items = _items(src)
+    marks = sorted(tspans)
+    edits = []                 # (start, end, replacement) over src, ascending and disjoint
+    for x, (kind, a, b) in enumerate(items):
+        if kind != "code" or src[a:b] != "...":
+            continue
+        prev = next((y for y in range(x - 1, -1, -1) if items[y][0] == "code"), None)
+        nxt = next((y for y in range(x + 1, len(items)) if items[y][0] == "code"), None)
+        in_type = any(lo <= a + 1 <= hi + 1 for lo, hi in marks)
+        pc = src[items[prev][2] - 1] if prev is not None else ""
+        if not (in_type or pc.isalnum() or pc == "_"):
+            continue
+        # leading trivia of the ellipsis: what follows the first line break after the previous token
+        lead_from = None
+        for y in range((prev + 1) if prev is not None else 0, x):
+            if items[y][0] == "nl":
+                lead_from = y + 1
+                break
+        if prev is None:
+            lead_from = 0
+        lead = (items[lead_from][1], a) if lead_from is not None and lead_from < x else None
+        # trailing trivia: up to and including the first line break
+        trail_to = x
+        for y in range(x + 1, nxt if nxt is not None else len(items)):
+            trail_to = y
+            if items[y][0] == "nl":
+                break
+        trail = (b, items[trail_to][2]) if trail_to > x else None
+        removed = (src[lead[0]:lead[1]] if lead else "") + (src[trail[0]:trail[1]] if trail else "")
+        lines = sum(1 for k2, a2, b2 in _items(removed) if k2 == "nl") + sum(removed[a2:b2].count("\n") for k2, a2, b2 in _items(removed) if k2 == "bc")
+        if lead and lead[1] > lead[0]:
+            edits.append((lead[0], lead[1], ""))
+        if trail and trail[1] > trail[0]:
+            edits.append((trail[0], trail[1], ""))
+        if lines and nxt is not None:
+            edits.append((items[nxt][1], items[nxt][1], "\n" * lines))
+    edits.sort()
+    if not edits:
+        return src, tspans, False
+    res, last = [], 0
+    for a, b, rep in edits:
+        res.append(src[last:a])
+        res.append(rep)
+        last = b
+    res.append(src[last:])
+    src2 = "".join(res)
+
+    def mp(x):           # 1-based byte offset of src -> src2 (texts of the typed templates are ASCII)
+        d = 0
+        for a, b, rep in edits:
+            if x - 1 >= b:
+                d += (b - a) - len(rep)
+            elif x - 1 >= a:
+                d += (x - 1 - a) - min(len(rep), x - 1 - a)
+        return x - d
+    spans2 = [[mp(lo), mp(hi)] for lo, hi in tspans]
+    return src2, spans2, src2 != src
+
+
+def rejudge_without_ellipsis_trivia(wd, label, obs, failing_ids):
+    """Returns the set of ids among failing_ids whose verdict holds once the trivia after type-pack ellipses is removed from
+    the SOURCE side (finding F-C03-f)."""
+    rows = []
+    for cid in failing_ids:
+        o = obs[cid]
+        if not o.get("tspans") or o["status"] != "ok":
+            continue
+        src = text_of(o["srcb"])
+        if not src.isascii():
+            continue
+        src2, spans2, changed = without_ellipsis_trivia(src, o["tspans"])
+        if not changed:
+            continue
+        o2 = dict(o, srcb=list(src2.encode()), tspans=spans2)
+        rows.append(o2)
+    if not rows:
+        return set()
+    op = os.path.join(wd, "obs-%s-rejudge.ndjson" % label)
+    verdicts, _ = judge_obs(op, label + "-rejudge", rows)
+    return set(cid for cid, v in verdicts.items() if v["ok"])
 
 
 def text_of(bs):
